@@ -1,10 +1,165 @@
 import SV.Driver.Util
-/- svdriver_c03: line protocol for the C03 model (stub until the model is built). -/
-namespace SV.Driver.C03
+import SV.Model.Writer
+/-
+svdriver_c03: line protocol for the C03 model (eStargz writer / builder bookkeeping).
 
-def step (s : Unit) : List String → Unit × String
+model mode (deterministic bookkeeping; byte VALUES are irrelevant, only lengths travel):
+  m.begin <g|z|e> <W|L|B> <ChunkSize int> <MinChunkSize> <workers> <needsOpen 0|1>   -> ok
+        W = Writer.AppendTar, L = Writer.AppendTarLossLess, B = Build (entries = after sortEntries)
+  m.ent <name hex> <kind> <isToc 0|1> <preLen> <dataLen> <postLen>                    -> ok
+  m.call <tailLen>          ends one AppendTar call (Build: exactly one, tail 0)      -> ok
+  m.orcf <n,n,...|->        compressed bytes emitted per Flush                        -> ok
+  m.orcc <n,n,...|->        compressed bytes emitted per Close, minus 1               -> ok
+  m.run <a> <tocTarLen>     a = compressed size of the TOC frame minus 1
+        -> ok nent=<TOC entries> nmem=<members> unc=<decompressed size> tocoff=<n|-> size=<blob size>
+        -> err                       (appendTar returns an error / divide by zero)
+  m.toc <i>   -> <name hex> <kind> <size> <offset> <innerOffset> <chunkOffset> <chunkSize> | none
+  m.mem <j>   -> <start> <clen> <payloadLen> | none
+
+check mode (translation validation of one REAL blob by the proved `checkIndex`):
+  c.begin                                   -> ok
+  c.mem <clen> <payload hex>                -> ok     members of the blob in order
+  c.file <name hex> <content hex>           -> ok     regular files of the tar stream in order
+  c.toc <name hex> <kind> <size> <offset> <innerOffset> <chunkOffset> <chunkSize>  -> ok
+  c.run                                     -> index-ok | index-bad
+-/
+namespace SV.Driver.C03
+open SV.Driver SV.Writer
+
+structure St where
+  fmt : Fmt := .gzip
+  mode : String := "W"
+  chunkRaw : Int := 0
+  minChunk : Nat := 0
+  workers : Nat := 1
+  needsOpen : Bool := false
+  ents : List TarEnt := []                       -- current call, reversed
+  calls : List (List TarEnt × Bytes) := []       -- reversed
+  orcF : List Nat := []
+  orcC : List Nat := []
+  res : Option Blob := none
+  cMems : List Member := []                      -- reversed
+  cFiles : List FileC := []                      -- reversed
+  cToc : List TocEnt := []                       -- reversed
+
+def kindOf? : String → Option Kind
+  | "reg" => some .reg | "chunk" => some .chunk | "dir" => some .dir | "symlink" => some .symlink
+  | "hardlink" => some .hardlink | "char" => some .char | "block" => some .block
+  | "fifo" => some .fifo | "other" => some .other | _ => none
+
+def kindStr : Kind → String
+  | .reg => "reg" | .chunk => "chunk" | .dir => "dir" | .symlink => "symlink"
+  | .hardlink => "hardlink" | .char => "char" | .block => "block" | .fifo => "fifo"
+  | .other => "other"
+
+def fmtOf? : String → Option Fmt
+  | "g" => some .gzip | "z" => some .zstd | "e" => some .external | _ => none
+
+def bool? : String → Option Bool
+  | "0" => some false | "1" => some true | _ => none
+
+def natList? (s : String) : Option (List Nat) :=
+  if s = "-" then some [] else (s.splitOn ",").mapM parseNat?
+
+def zeros (n : Nat) : Bytes := List.replicate n 0
+
+def showToc (e : TocEnt) : String :=
+  s!"{hexStr e.name} {kindStr e.typ} {e.size} {e.offset} {e.innerOffset} {e.chunkOffset} {e.chunkSize}"
+
+def memberAt : List Member → Nat → Nat → Option (Nat × Member)
+  | [], _, _ => none
+  | m :: ms, start, j => if j = 0 then some (start, m) else memberAt ms (start + m.clen) (j - 1)
+
+def parseToc? (name kind size off inner choff chsize : String) : Option TocEnt := do
+  let name ← unhexStr? name
+  let kind ← kindOf? kind
+  let size ← parseNat? size
+  let off ← parseNat? off
+  let inner ← parseNat? inner
+  let choff ← parseNat? choff
+  let chsize ← parseNat? chsize
+  some ⟨name, kind, size, off, inner, choff, chsize⟩
+
+def run (s : St) (a tocTarLen : Nat) : Option Blob :=
+  let calls := s.calls.reverse
+  let tocTar : List TocEnt → Bytes := fun _ => zeros tocTarLen
+  if s.mode = "B" then
+    match calls with
+    | [(ents, _)] => build s.fmt (effChunk s.chunkRaw) s.minChunk s.workers ents tocTar s.orcF s.orcC a
+    | _ => none
+  else
+    let P : Params := ⟨effChunk s.chunkRaw, s.minChunk, if s.needsOpen then landmarks else [], s.mode = "L"⟩
+    writerRun P s.fmt calls tocTar s.orcF s.orcC a
+
+def step (s : St) : List String → St × String
+  | ["m.begin", fmt, mode, chunk, minChunk, workers, needsOpen] =>
+    match fmtOf? fmt, parseInt? chunk, parseNat? minChunk, parseNat? workers, bool? needsOpen with
+    | some fmt, some chunk, some minChunk, some workers, some needsOpen =>
+      if mode = "W" ∨ mode = "L" ∨ mode = "B" then
+        ({ fmt := fmt, mode := mode, chunkRaw := chunk, minChunk := minChunk, workers := workers,
+           needsOpen := needsOpen }, "ok")
+      else (s, "bad-op")
+    | _, _, _, _, _ => (s, "bad-op")
+  | ["m.ent", name, kind, istoc, pre, data, post] =>
+    match unhexStr? name, kindOf? kind, bool? istoc, parseNat? pre, parseNat? data, parseNat? post with
+    | some name, some kind, some istoc, some pre, some data, some post =>
+      ({ s with ents := ⟨name, kind, istoc, zeros pre, zeros data, zeros post⟩ :: s.ents }, "ok")
+    | _, _, _, _, _, _ => (s, "bad-op")
+  | ["m.call", tail] =>
+    match parseNat? tail with
+    | some tail => ({ s with calls := (s.ents.reverse, zeros tail) :: s.calls, ents := [] }, "ok")
+    | none => (s, "bad-op")
+  | ["m.orcf", l] =>
+    match natList? l with
+    | some l => ({ s with orcF := l }, "ok")
+    | none => (s, "bad-op")
+  | ["m.orcc", l] =>
+    match natList? l with
+    | some l => ({ s with orcC := l }, "ok")
+    | none => (s, "bad-op")
+  | ["m.run", a, tocTarLen] =>
+    match parseNat? a, parseNat? tocTarLen with
+    | some a, some tocTarLen =>
+      match run s a tocTarLen with
+      | none => ({ s with res := none }, "err")
+      | some b =>
+        let tocoff := match b.tocOff with | some o => toString o | none => "-"
+        ({ s with res := some b },
+         s!"ok nent={b.toc.length} nmem={b.members.length} unc={(streamOf b.members).length} tocoff={tocoff} size={b.size}")
+    | _, _ => (s, "bad-op")
+  | ["m.toc", i] =>
+    match parseNat? i, s.res with
+    | some i, some b =>
+      match b.toc[i]? with
+      | some e => (s, showToc e)
+      | none => (s, "none")
+    | some _, none => (s, "none")
+    | none, _ => (s, "bad-op")
+  | ["m.mem", j] =>
+    match parseNat? j, s.res with
+    | some j, some b =>
+      match memberAt b.members 0 j with
+      | some (start, m) => (s, s!"{start} {m.clen} {m.payload.length}")
+      | none => (s, "none")
+    | some _, none => (s, "none")
+    | none, _ => (s, "bad-op")
+  | ["c.begin"] => ({ s with cMems := [], cFiles := [], cToc := [] }, "ok")
+  | ["c.mem", clen, payload] =>
+    match parseNat? clen, unhex? payload with
+    | some clen, some payload => ({ s with cMems := ⟨payload, clen⟩ :: s.cMems }, "ok")
+    | _, _ => (s, "bad-op")
+  | ["c.file", name, content] =>
+    match unhexStr? name, unhex? content with
+    | some name, some content => ({ s with cFiles := ⟨name, content⟩ :: s.cFiles }, "ok")
+    | _, _ => (s, "bad-op")
+  | ["c.toc", name, kind, size, off, inner, choff, chsize] =>
+    match parseToc? name kind size off inner choff chsize with
+    | some e => ({ s with cToc := e :: s.cToc }, "ok")
+    | none => (s, "bad-op")
+  | ["c.run"] =>
+    (s, if checkIndex s.cToc.reverse s.cMems.reverse s.cFiles.reverse then "index-ok" else "index-bad")
   | _ => (s, "bad-op")
 
 end SV.Driver.C03
 
-def main : IO Unit := SV.Driver.loop SV.Driver.C03.step ()
+def main : IO Unit := SV.Driver.loop SV.Driver.C03.step {}
